@@ -46,7 +46,9 @@ Definition go_dbp_header (src : bytes) : gres (Z * Z * Z * Z * bytes) :=
 Definition take_upto (n : N) (l : bytes) : bytes * bytes :=
   if fits_len n l then (firstn (N.to_nat n) l, skipn (N.to_nat n) l) else (l, []).
 
-(** the loop over the bit widths of one block.  For a non-zero width the
+(** the loop over the bit widths of one block.  A mini-block that the loop
+    reaches must have a bit width of at most the width of the type (since
+    15954b9: [if bitWidth > 32] / [> 64] error).  For a non-zero width the
     mini-block is [miniBlockSize = numValuesInMiniBlock*bitWidth/8] bytes, or
     all that is left when the input is shorter: the last mini-block may come
     without its padding, but (since b47fdb3) the bits of the [n] values it
@@ -58,17 +60,16 @@ Definition take_upto (n : N) (l : bytes) : bytes * bytes :=
     first [n] values are kept: a value does not depend on those after it).
     Zero-width mini-blocks leave the zeros of the freshly resized
     destination.  Returns the unpacked values of the block (before the prefix
-    sums), the remaining input, the remaining count and (for the differential
-    runs only: the assembly kernels are not modelled for widths above the
-    width of the type) the largest bit width used. *)
+    sums), the remaining input and the remaining count. *)
 Fixpoint go_dbp_miniblocks (tw vpm : N) (ws : list N) (src : bytes) (remaining : N)
-  : gres (list N * bytes * N * N) :=
+  : gres (list N * bytes * N) :=
   match ws with
-  | [] => GOk ([], src, remaining, 0)
+  | [] => GOk ([], src, remaining)
   | w :: ws' =>
       let n := N.min vpm remaining in
       let size := N.to_nat (vpm * w / 8) in
-      if negb (w =? 0) && (N.of_nat (length (firstn size src)) <? (n * w + 7) / 8) then GErr
+      if tw <? w then GErr
+      else if negb (w =? 0) && (N.of_nat (length (firstn size src)) <? (n * w + 7) / 8) then GErr
       else
         let '(vals, src') :=
           if w =? 0 then (repeat 0 (N.to_nat n), src)
@@ -76,10 +77,10 @@ Fixpoint go_dbp_miniblocks (tw vpm : N) (ws : list N) (src : bytes) (remaining :
             (firstn (N.to_nat n) (go_unpack_chunks tw w (N.to_nat (vpm / 8)) (firstn size src)),
              skipn size src) in
         let remaining' := remaining - n in
-        if remaining' =? 0 then GOk (vals, src', remaining', w)    (* break *)
+        if remaining' =? 0 then GOk (vals, src', remaining')    (* break *)
         else
           gbind (go_dbp_miniblocks tw vpm ws' src' remaining')
-                (fun '(vs, s, r, wm) => GOk (vals ++ vs, s, r, N.max w wm))
+                (fun '(vs, s, r) => GOk (vals ++ vs, s, r))
   end.
 
 (** [for totalValues > 0 && len(src) > 0]: block header (min delta as a
@@ -88,38 +89,35 @@ Fixpoint go_dbp_miniblocks (tw vpm : N) (ws : list N) (src : bytes) (remaining :
     wrap-around = [DeltaBP.recon].  [int32(minDelta)] truncates = [wrapZ k].
     After the loop: [if totalValues > 0] error "missing values". *)
 Fixpoint go_dbp_blocks (fuel : nat) (k vpm nmb : N) (src : bytes) (remaining last : N)
-  : gres (list N * bytes * N) :=
+  : gres (list N * bytes) :=
   match fuel with
-  | O => if remaining =? 0 then GOk ([], src, 0) else GErr    (* len(src) = 0 here *)
+  | O => if remaining =? 0 then GOk ([], src) else GErr       (* len(src) = 0 here *)
   | S f =>
       if (remaining =? 0) || (length src =? 0)%nat then
-        if remaining =? 0 then GOk ([], src, 0) else GErr
+        if remaining =? 0 then GOk ([], src) else GErr
       else
         match go_varint src with
         | None => GErr
         | Some (md, s1) =>
             let '(ws, s2) := take_upto nmb s1 in
-            gbind (go_dbp_miniblocks k vpm ws s2 remaining) (fun '(us, s3, rem', wm) =>
+            gbind (go_dbp_miniblocks k vpm ws s2 remaining) (fun '(us, s3, rem') =>
               let '(xs, last') := recon k last (wrapZ k md) us in
               gbind (go_dbp_blocks f k vpm nmb s3 rem' last')
-                    (fun '(ys, rest, wm') => GOk (xs ++ ys, rest, N.max wm wm')))
+                    (fun '(ys, rest) => GOk (xs ++ ys, rest)))
         end
   end.
 
-(** decodeInt32 ([k] = 32) / decodeInt64 ([k] = 64): decoded values, the
-    input left after the section, the largest bit width used *)
-Definition go_dbp_dec_w (k : N) (src : bytes) : gres (list Z * bytes * N) :=
+(** decodeInt32 ([k] = 32) / decodeInt64 ([k] = 64): decoded values and the
+    input left after the section *)
+Definition go_dbp_dec (k : N) (src : bytes) : gres (list Z * bytes) :=
   gbind (go_dbp_header src) (fun '(bs, nmb, total, first, s) =>
-    if (total =? 0)%Z then GOk ([], s, 0)
+    if (total =? 0)%Z then GOk ([], s)
     else if (k =? 32) && ((first <? - 2 ^ 31) || (2 ^ 31 - 1 <? first))%Z then GErr
     else
       let vpm := Z.to_N (Z.quot bs nmb) in
       let p := wrapZ k first in
       gbind (go_dbp_blocks (length s) k vpm (Z.to_N nmb) s (Z.to_N total - 1) p)
-            (fun '(ps, rest, wm) => GOk (map (sintZ k) (p :: ps), rest, wm))).
-
-Definition go_dbp_dec (k : N) (src : bytes) : gres (list Z * bytes) :=
-  gbind (go_dbp_dec_w k src) (fun '(xs, rest, _) => GOk (xs, rest)).
+            (fun '(ps, rest) => GOk (map (sintZ k) (p :: ps), rest))).
 
 (** BinaryPackedEncoding.DecodeInt32 / DecodeInt64 drop the remaining input *)
 Definition go_dbp_decode (k : N) (src : bytes) : gres (list Z) :=
@@ -185,7 +183,7 @@ Fixpoint go_dba_loop (prefix suffix : list Z) (src last : bytes) : gres (list by
 (** ByteArrayEncoding.DecodeByteArray (the values; the offsets returned by Go
     are the cumulated lengths) and DecodeFixedLenByteArray (their
     concatenation; the size argument is not checked against the lengths);
-    with the input that follows the last suffix (ignored by the portable code) *)
+    with the input that follows the last suffix (ignored) *)
 Definition go_dba_dec_rest (src : bytes) : gres (list bytes * bytes) :=
   gbind (go_dbp_dec 32 src) (fun '(ps, s1) =>
   gbind (go_dbp_dec 32 s1) (fun '(ss, s2) =>
@@ -194,30 +192,6 @@ Definition go_dba_dec_rest (src : bytes) : gres (list bytes * bytes) :=
 
 Definition go_dba_dec (src : bytes) : gres (list bytes) :=
   gbind (go_dba_dec_rest src) (fun '(vs, _) => GOk vs).
-
-(** for the differential runs on builds with assembly kernels, which are not
-    modelled in two situations that only malformed input reaches: 1 = a
-    mini-block bit width above the width of the type in one of the first
-    [sections] DELTA_BINARY_PACKED sections; 2 = input left after the last
-    suffix of a DELTA_BYTE_ARRAY section; 0 = neither *)
-Fixpoint dbp_sections_wide (sections : nat) (k : N) (src : bytes) : bool :=
-  match sections with
-  | O => false
-  | S m =>
-      match go_dbp_dec_w k src with
-      | GOk (_, rest, wm) => (k <? wm) || dbp_sections_wide m k rest
-      | _ => false
-      end
-  end.
-
-Definition go_delta_quirk (sections : nat) (k : N) (src : bytes) : N :=
-  if dbp_sections_wide sections k src then 1
-  else if (sections =? 2)%nat then
-    match go_dba_dec_rest src with
-    | GOk (_, _ :: _) => 2
-    | _ => 0
-    end
-  else 0.
 
 (** * What a decoder would allocate (see GoDecRle.rle_cost): the largest of
     block size, mini-block count and total count announced by a header *)
